@@ -264,11 +264,14 @@ func checkC(h History) *core.Violation {
 			return core.V("restart|listener|kind-differs", "listener %q is a %s listener after the restart, was %s", l.Name, g.Kind, l.Kind)
 		}
 		diff := func(f string, gv, wv any) *core.Violation {
-			sig := "restart|listener|" + l.Kind + "|" + f + "-differs"
-			if _, edited := r.lorig[l.Name]; edited && l.Kind == "http" {
-				sig = "restart|listener|http|" + f + "-differs|edited"
+			if o, edited := r.lorig[l.Name]; edited && l.Kind == "http" {
+				// is it the value from before the operator's edit?
+				before := map[string]string{"UserAgent": o.UserAgent, "Headers": fmt.Sprintf("%q", o.Headers), "Uris": fmt.Sprintf("%q", o.Uris), "ProxyEnabled": fmt.Sprint(o.Proxy)}
+				if b, ok := before[f]; ok && (fmt.Sprint(gv) == b || (b == "[]" && fmt.Sprint(gv) == `[""]`)) {
+					return core.V("restart|listener|http|edit-not-persisted", "listener %q was edited by the operator (%s now %q) but comes back with the value from before the edit (%q)", l.Name, f, clipS(fmt.Sprint(wv)), clipS(fmt.Sprint(gv)))
+				}
 			}
-			return core.V(sig, "listener %q: %s is %q after the restart, the operator configured %q", l.Name, f, clipS(fmt.Sprint(gv)), clipS(fmt.Sprint(wv)))
+			return core.V("restart|listener|"+l.Kind+"|"+f+"-differs", "listener %q: %s is %q after the restart, the operator configured %q", l.Name, f, clipS(fmt.Sprint(gv)), clipS(fmt.Sprint(wv)))
 		}
 		switch l.Kind {
 		case "smb":
